@@ -338,3 +338,25 @@ def expected_p(spec):
                 for k in range(ncol):
                     out.append([float(x) for x in a[:, k]])
     return out
+
+
+# ----------------------------------------------------------------------------------------------
+# C18
+# ----------------------------------------------------------------------------------------------
+def c18_edit_raised(w, act, st, step, e):
+    """a loaded OCP must accept what the same specification, freshly written, accepts (its symbols are
+    'reachable through the usual accessors'): an edit refused by the loaded OCP only is a violation"""
+    if st.get("gen", 0) < 1 or step.get("expect") == "reject":
+        return
+    try:
+        fresh = build(program(act.spec), "fresh")
+        if st.get("transcribed"):
+            w.handoff(fresh)
+    except Exception:
+        return
+    try:
+        fresh.apply(step)
+    except Exception:
+        return  # refused by a freshly written OCP as well
+    raise Violation("loaded-rejects-edit", "%s is refused by the loaded OCP (%s: %s) but accepted by the same specification written afresh" % (
+        {k: v for k, v in step.items() if k in ("op", "x", "p", "g", "v")}, type(e).__name__, str(e)[:160]))
